@@ -68,7 +68,8 @@ REQUIRED_THEOREMS = ["C04_unitaries_of", "C04_create_dict", "C04_rotate_psi_dict
                      "C04_inner_prod_enum", "C04_inner_prod_enum_dense", "C04_rho_probs_enum", "C04_rho_probs_enum_dense",
                      "C04_dense_unitary", "C04_psi_probs_sum", "C04_rho_probs_nonneg", "C04_rho_probs_sum",
                      "C04_create_dict_exact", "C04_create_dict_list_rounds", "C04_create_dict_refused",   # extension round 2
-                     "C04_dZ", "C04_dX_unitary", "C04_dX_eigen", "C04_dY_unitary", "C04_dY_eigen"]
+                     "C04_dZ", "C04_dX_unitary", "C04_dX_eigen", "C04_dY_unitary", "C04_dY_eigen",
+                     "C04_vector_states_outcome", "C04_convert_basis_batch"]   # late: 1-D `states` form, batched index conversion
 
 
 # ------------------------------------------------------------------ helpers
